@@ -198,7 +198,7 @@ PROPS = {
         suites=dict(quick=[("py", "c01_roundtrip"), ("l1", "c08-http"), ("l1", "opts")], thorough=[("py", "c01_roundtrip"), ("py", "c12_determinism"), ("l1", "c08-http"), ("l1", "opts")]),
         rule="random sources (empty, 1 byte, zeros, constant, repetitive blocks, text, random; up to 20 kB) x random valid configs x hash "
              "lengths x none/brotli levels x buffer counts x file/stdin; oracles: clone output == source, info reports size and Blake2 "
-             "checksum, temp file removed, CLI archive == library archive; model: archive digest (both writers) and clone result/output",
+             "checksum, temp file removed, CLI archive == library archive; model: archive digest (both writers) and clone result/output + l1 opts: cli::parse_opts / string_utils in process (sources of the bita crate compiled into the harness): size texts (69 numbers x 19 units + random), checksum texts, bita compress / bita clone option sets, raw --metadata-value arguments; answer ok <all parsed fields> / refused / panic vs Bita.Model.Options, with independent oracles (sizes fit 32 bits, pin bytes = what the text denotes, flags and seed list as given)",
         trusted_base=LEAN_TB + ["brotli (codec contract assumed)", "futures::buffered / tokio::fs::File semantics (Bita/Model/Schedule.lean)"],
         assumptions=["valid configuration (OptsOK)", "codec round-trips and never compresses a non-empty chunk to nothing", "no full-hash collision among source chunks"],
     ),
@@ -207,7 +207,7 @@ PROPS = {
                    "number, order, content), every prior output, in place or not, any chunk reader: success implies output == source, or a "
                    "collision of the truncated hash with a genuine source chunk is exhibited; feeds_exact at the level of keyed chunks. Tied "
                    "to the code by CLI clones with 0-4 seeds of 7 kinds (+ stdin), plain/in-place/block device, local/HTTP, hash lengths "
-                   "4..64: output == source, and result/output/fetched ranges compared with the model.",
+                   "4..64: output == source, and result/output/fetched ranges compared with the model. cli_seeds_as_given: the seed list, stdin flag and in-place flag clone_cmd is handed are exactly what the command line gives (model of src/cli.rs, suite opts).",
         level_note="Trusted: as C03/C09 (tiling, chunking); truncated-hash lookup modelled as equality of truncated keys (tied by the CLI runs "
                    "with hash lengths 4 and 5 and by C03's index correspondence).",
         technique="Lean 4 proof (reduction of byte-level clone to the tiling-level feed theorem, collision reduction) + CLI differential runs",
@@ -219,7 +219,7 @@ PROPS = {
         suites=dict(quick=[("py", "c02_seeds"), ("l1", "opts")], thorough=[("py", "c02_seeds"), ("l1", "opts")]),
         rule="CLI clone scenarios: seeds from {unrelated, the source, edited copies, empty, same size other content, reordered halves}, "
              "optional stdin seed, optional in-place prior (edited source or junk), block-device hook, local or scripted HTTP archive; "
-             "oracle: output == source; model: result, output digest, exact fetched ranges",
+             "oracle: output == source; model: result, output digest, exact fetched ranges + l1 opts: cli::parse_opts / string_utils in process (sources of the bita crate compiled into the harness): size texts (69 numbers x 19 units + random), checksum texts, bita compress / bita clone option sets, raw --metadata-value arguments; answer ok <all parsed fields> / refused / panic vs Bita.Model.Options, with independent oracles (sizes fit 32 bits, pin bytes = what the text denotes, flags and seed list as given)",
         trusted_base=LEAN_TB,
         assumptions=["the archive header is genuine (opens and describes the source)"],
     ),
@@ -244,7 +244,7 @@ PROPS = {
         suites=dict(quick=[("py", "c04_corruption"), ("l1", "fmt"), ("l1", "opts")], thorough=[("py", "c04_corruption"), ("l1", "fmt"), ("l1", "opts")]),
         rule="per archive (none/brotli, hash length 8/16/64): 120 sampled single-bit flips (every bit of tiny archives in thorough), "
              "truncations at structural offsets, random overwrites, payload swap, trailing garbage, x {plain, seed, --verify-output, pinned}; "
-             "7 server misbehaviours; oracle: error or output == source, altered header never accepted; model: result + output digest",
+             "7 server misbehaviours; oracle: error or output == source, altered header never accepted; model: result + output digest + l1 opts: cli::parse_opts / string_utils in process (sources of the bita crate compiled into the harness): size texts (69 numbers x 19 units + random), checksum texts, bita compress / bita clone option sets, raw --metadata-value arguments; answer ok <all parsed fields> / refused / panic vs Bita.Model.Options, with independent oracles (sizes fit 32 bits, pin bytes = what the text denotes, flags and seed list as given)",
         trusted_base=LEAN_TB,
         assumptions=["archives produced by compress; corruption after creation; an attacker able to rewrite the checksum is out of scope unless --verify-header is used"],
     ),
@@ -310,7 +310,7 @@ PROPS = {
         suites=dict(quick=[("py", "c11_conformance"), ("l1", "fmt"), ("l1", "opts")], thorough=[("py", "c11_conformance"), ("l1", "fmt"), ("l1", "opts")]),
         rule="archives of both writers over random sources/configs/hash lengths/compression/metadata (incl. empty key, non-ASCII, long values): "
              "Python conformance checklist on the raw bytes; prost vs model: encode-dict byte-exact, decode-dict field-exact on encodings, "
-             "crafted additions (unknown fields, groups, duplicates, unpacked, overlong varints, bad UTF-8) and mutations; header::build",
+             "crafted additions (unknown fields, groups, duplicates, unpacked, overlong varints, bad UTF-8) and mutations; header::build + l1 opts: cli::parse_opts / string_utils in process (sources of the bita crate compiled into the harness): size texts (69 numbers x 19 units + random), checksum texts, bita compress / bita clone option sets, raw --metadata-value arguments; answer ok <all parsed fields> / refused / panic vs Bita.Model.Options, with independent oracles (sizes fit 32 bits, pin bytes = what the text denotes, flags and seed list as given)",
         trusted_base=LEAN_TB + ["vlib/pyfmt.py (independent decoder)"],
         assumptions=["valid configuration"],
     ),
@@ -340,7 +340,7 @@ PROPS = {
                    "compress_refused_output_exists - with the OpenOptions flag expressions and the order of the steps READ FROM THE SOURCE "
                    "(facts_as_expected). Tied to the code by the whole table run through the CLI: {absent, regular short/long, block device "
                    "big/small} x {none, -f, --seed-output} x {valid, corrupt header, not an archive, pin mismatch, pin prefix, pin ok} + compress "
-                   "rows; content, length, existence before/after and exit status; each row compared with the model's verdict.",
+                   "rows; content, length, existence before/after and exit status; each row compared with the model's verdict. cli_refused_output_exists / cli_pin_is_never_dropped: the refusals from the command-line texts (model of src/cli.rs, suite opts).",
         level_note="POSIX open semantics (O_CREAT|O_EXCL, O_TRUNC) are trusted; block device rows use the guarded is_block_dev hook.",
         technique="Lean 4 proof (case analysis over the flow with extracted flag expressions) + exhaustive CLI table",
         design_ref="DESIGN.md 5/C14",
@@ -350,7 +350,7 @@ PROPS = {
         required_theorems=["facts_as_expected", "pin_length_checked_fact", "refused_invalid_archive", "refused_pin_mismatch", "refused_output_exists", "refused_small_device", "compress_refused_output_exists", "cli_refused_output_exists", "cli_pin_is_never_dropped"],
         suites=dict(quick=[("py", "c14_refusals"), ("l1", "opts")], thorough=[("py", "c14_refusals"), ("l1", "opts")]),
         rule="the full table (90 clone rows + 4 compress rows per repetition, random pre-existing content); oracle: refused => non-zero exit, "
-             "output byte-identical / still absent; proceeds => output == source (block device: prefix, length kept)",
+             "output byte-identical / still absent; proceeds => output == source (block device: prefix, length kept) + l1 opts: cli::parse_opts / string_utils in process (sources of the bita crate compiled into the harness): size texts (69 numbers x 19 units + random), checksum texts, bita compress / bita clone option sets, raw --metadata-value arguments; answer ok <all parsed fields> / refused / panic vs Bita.Model.Options, with independent oracles (sizes fit 32 bits, pin bytes = what the text denotes, flags and seed list as given)",
         trusted_base=LEAN_TB + ["POSIX open/ftruncate semantics", "the is_block_dev hook (cfg oll3_bita_verif)"],
         assumptions=["unique paths in the file system; archive path != output path"],
     ),
@@ -362,7 +362,7 @@ PROPS = {
                    "any script: no underflow in the HTTP reader). Tied to the code by structure-aware mutation under a recomputed checksum "
                    "through the library (catch_unwind; open + banner arithmetic + index + bounded seed scan) and through the CLI (info / clone "
                    "/ clone --seed / clone --seed-output under a watchdog; exit 101/134/hang = violation), random bytes, bit flips, truncations, "
-                   "declared sizes up to 2^64, misbehaving servers.",
+                   "declared sizes up to 2^64, misbehaving servers. Session 4: accepted_archive_chunker_allocation_bounded, accepted_archive_scan_buffer_bounded (buffer model SC.caps of the streaming chunker), decompression_buffer_never_exceeds_declared_size / decompression_exact_or_error (LimitedOutput as a sink, any writes).",
         level_note="Panic-freedom OF THE MODEL; which operations can panic is the modeller's reading of the code, so the generators are the "
                    "important half. Partial w.r.t. memory exhaustion and anything inside prost/brotli/reqwest. Accepted RollSum configs with "
                    "window > max are outside Config.Valid (covered by the correspondence only). HttpReader::read_at buffers whatever body a "
@@ -376,7 +376,7 @@ PROPS = {
         suites=dict(quick=[("l1", "fmt"), ("py", "c15_cli"), ("l1", "c08-http"), ("l1", "c08-io")], thorough=[("l1", "fmt"), ("py", "c15_cli"), ("l1", "c08-http"), ("l1", "c08-io")]),
         rule="library: random/wild dictionaries under header::build, wire-level crafted dictionaries and declared-size/offset lies under a "
              "recomputed checksum, bit flips, truncations, random bytes; CLI: 22 field mutations x 4 commands + 13 server scripts; "
-             "outcome classes compared with the model's tryInit/banner",
+             "outcome classes compared with the model's tryInit/banner + l1 fmt: largest allocation request of Config::new_chunker for 36 configurations vs the model, peak request while scanning up to 13 MiB judged against 2*(max chunk + 1 MiB), 600 write sequences into the bounded decompression buffer (hook verif_limited_output) vs the sink model",
         trusted_base=LEAN_TB,
         assumptions=["read_at contract (exact size or error) - proved for both readers in C08"],
     ),
